@@ -11,6 +11,7 @@ CONSTANTS
   TriplePer = 6
   OverlapPer = 6
   Doubling = FALSE
+  PairsFirstAll = TRUE
   GroupsExhaustive = TRUE
   Salt = 0
 INIT Init
